@@ -147,28 +147,6 @@ def c_delimit_three(a: bytes, b: bytes, c: bytes) -> str:
     return pick_dev(devs, ALLOWED)
 
 
-def c_parser_state_is_its_buffer(buf: bytes) -> str:
-    """
-    Representation invariant behind the induction of L1: after any read the parser's only state is its buffer (an
-    extra attribute would be parser state that the one-step lemma does not quantify over).
-
-    pre: len(buf) <= 7
-    post: _ in ALLOWED
-    """
-    p = FrameParser()
-    saved = _fp.parse_or_ignore
-    _fp.parse_or_ignore = _stub_parse
-    try:
-        drive_agen(p.receive_data(buf))
-    finally:
-        _fp.parse_or_ignore = saved
-    stats.note(True)
-    names = sorted(vars(p).keys())
-    if names != ['_buffer']:
-        return 'parser-carries-state-beyond-its-buffer:' + ','.join(n for n in names if n != '_buffer')
-    return ''
-
-
 # ------------------------------------------------------------------------------------------------ L2
 def _sig(f):
     if isinstance(f, InvalidFrame):
